@@ -31,9 +31,11 @@ Theorem C10_rename : forall w a b r1 rest x1,
   has_crlf a = false -> has_crlf b = false ->
   (code x1 <> 350 ->
      exists w', step w (ARename a b) = (OReturn (RvReplies [x1]), w') /\ ready w' /\ w_pending w' = [] /\ w_cur w' = rest /\
+       w_cfg w' = w_cfg w /\
        wire_events (skipn (length (w_trace w)) (w_trace w')) = [WLine (RNFR_ ++ SP :: a); WReply x1]) /\
   (code x1 = 350 -> forall r2 rest2 x2, rest = r2 :: rest2 -> simple_reaction r2 x2 ->
      exists w', step w (ARename a b) = (OReturn (RvReplies [x1; x2]), w') /\ ready w' /\ w_pending w' = [] /\ w_cur w' = rest2 /\
+       w_cfg w' = w_cfg w /\
        wire_events (skipn (length (w_trace w)) (w_trace w')) =
          [WLine (RNFR_ ++ SP :: a); WReply x1; WLine (RNTO_ ++ SP :: b); WReply x2]).
 Proof. exact rename_call. Qed.
